@@ -170,6 +170,33 @@ def r_guard(A, ctx, scope, rule="R-GUARD"):
                                 what = (f"the candidate `{accv} = {norm_src(dv_)[:70]}` is built from the "
                                         f"current {sorted(bad)} instead of the extrapolated coefficients: "
                                         "after acceptance iterate and model fit disagree")
+            # after `cur[:] = acc` the two arrays are equal: a later `acc - cur` in the same
+            # block is identically zero (an increment computed from it leaves its target stale)
+            if what is None:
+                blk = None
+                for parent in ast.walk(f.node):
+                    for fld in ("body", "orelse"):
+                        lst = getattr(parent, fld, None)
+                        if isinstance(lst, list) and any(x is nd0.ast for x in lst):
+                            blk = lst
+                if blk is not None:
+                    copied = set()
+                    for st_ in blk:
+                        for sub in ast.walk(st_):
+                            if isinstance(sub, ast.BinOp) and isinstance(sub.op, ast.Sub) \
+                                    and isinstance(sub.left, ast.Name) and isinstance(sub.right, ast.Name) \
+                                    and (sub.left.id, sub.right.id) in copied | {(b, a) for a, b in copied}:
+                                what = (f"`{norm_src(st_)[:70]}` uses `{norm_src(sub)}` after one was copied into "
+                                        "the other: the difference is zero, the update is a no-op and its "
+                                        "target keeps the values of the point before the extrapolation")
+                        if isinstance(st_, ast.Assign):
+                            tg = st_.targets[0]
+                            tgs = tg.elts if isinstance(tg, ast.Tuple) else [tg]
+                            vs = st_.value.elts if isinstance(st_.value, ast.Tuple) else [st_.value]
+                            for t_, v_ in zip(tgs, vs):
+                                if isinstance(t_, ast.Subscript) and isinstance(t_.value, ast.Name) \
+                                        and isinstance(v_, ast.Name):
+                                    copied.add((t_.value.id, v_.id))
             # objective of the current point computed from the current arrays (fresh)
             if what is None:
                 for m_nd in cfg.stmts():
